@@ -62,7 +62,7 @@ CHECKS = {
         "text": "The complete shift/reduce (1728 rows) and reduce/reduce decision tables of the conflict resolution are "
                 "read off the MIR of calculate_reductions and compared row by row with the documented rules; plus the "
                 "priority operand, max_prior_for_term = max and the keyword -> meta key -> field mapping. Exhaustive over "
-                "the finite domain of the decision function, for all grammars; does not decide consequences for trees. C05-R3 also reports entry().or_insert() without combination (first production wins).",
+                "the finite domain of the decision function, for all grammars; does not decide consequences for trees. C05-R3 also reports entry().or_insert() without combination (first production wins). C05-R5: the setters of prefer_shifts / prefer_shifts_over_empty store their own field only (shares C17-R5b).",
         "note": "Trusted: rustc MIR; the spec table written from docs/src/grammar_language.md and the property statement; "
                 "the resolution lives in LRTable::calculate_reductions (anchor, fail closed if it moves).",
     },
